@@ -193,11 +193,13 @@ Fixpoint urun (st : ustate) (s : str) : option str :=
 Definition unescape (s : str) : option str := urun UN s.
 
 (* ---------- serialize ---------- *)
+(* the writer emits whole lines (`writeln!`, or `write!`s closed by a `writeln!`): the text is the
+   concatenation of the lines of [text_lines], each followed by "\n" *)
 Definition ln (s : str) : str := s ++ [10].
 
-Definition ser_tword (w : option Z) : str := ln (match w with Some v => hex4 v | None => TFMT_UNINIT end).
-Definition ser_tblock (b : Z * list (option Z)) : str :=
-  ln (hex4 (fst b)) ++ ln (fmt_dec (len (snd b))) ++ flat_map ser_tword (snd b).
+Definition tword (w : option Z) : str := match w with Some v => hex4 v | None => TFMT_UNINIT end.
+Definition tblock_lines (b : Z * list (option Z)) : list str :=
+  hex4 (fst b) :: fmt_dec (len (snd b)) :: map tword (snd b).
 
 Definition sym_lt (a b : str * symdata) : bool :=
   (sd_addr (snd a) <? sd_addr (snd b))
@@ -209,23 +211,26 @@ Definition idx_lt (a b : str * symdata) : bool :=
   || ((sd_src_start (snd a) =? sd_src_start (snd b)) && str_ltb (fst a) (fst b)).
 
 Definition sym_row (p : str * symdata) : str :=
-  ln (hex4 (sd_addr (snd p)) ++ TABLE_DIV ++ pad_left 32 3 (if sd_external (snd p) then [49] else [48])
-      ++ TABLE_DIV ++ fst p).
-Definition rel_row (p : Z * str) : str := ln (hex4 (fst p) ++ TABLE_DIV ++ snd p).
+  hex4 (sd_addr (snd p)) ++ TABLE_DIV ++ pad_left 32 3 (if sd_external (snd p) then [49] else [48])
+  ++ TABLE_DIV ++ fst p.
+Definition rel_row (p : Z * str) : str := hex4 (fst p) ++ TABLE_DIV ++ snd p.
 
 Definition LABEL : str := s2z "LABEL".
 Definition INDEX : str := s2z "INDEX".
 Definition LINE : str := s2z "LINE".
-Definition ser_label_table (labels : list (str * symdata)) : str :=
+Definition label_col (entries : list (str * symdata)) : Z :=
+  fold_left (fun m p => Z.max m (byte_len (fst p))) entries (len LABEL).
+Definition index_col (entries : list (str * symdata)) : Z :=
+  fold_left (fun m p => Z.max m (count_digits (sd_src_start (snd p)))) entries (len INDEX).
+Definition idx_row (lc ic : Z) (p : str * symdata) : str :=
+  pad_right 32 lc (fst p) ++ TABLE_DIV ++ pad_left 32 ic (fmt_dec (sd_src_start (snd p))).
+Definition label_table_lines (labels : list (str * symdata)) : list str :=
   match labels with
   | [] => []
   | _ =>
       let entries := sort_by idx_lt labels in
-      let label_col := fold_left (fun m p => Z.max m (byte_len (fst p))) entries (len LABEL) in
-      let index_col := fold_left (fun m p => Z.max m (count_digits (sd_src_start (snd p)))) entries (len INDEX) in
-      ln (pad_right 32 label_col LABEL ++ TABLE_DIV ++ pad_right 32 index_col INDEX)
-      ++ flat_map (fun p => ln (pad_right 32 label_col (fst p) ++ TABLE_DIV
-                                ++ pad_left 32 index_col (fmt_dec (sd_src_start (snd p))))) entries
+      (pad_right 32 (label_col entries) LABEL ++ TABLE_DIV ++ pad_right 32 (index_col entries) INDEX)
+      :: map (idx_row (label_col entries) (index_col entries)) entries
   end.
 
 Fixpoint seqz (start : Z) (n : nat) : list Z :=
@@ -241,42 +246,44 @@ Definition line_table (d : debug_symbols) : list (Z * option Z) :=
             (map (fun l => (l, None)) (seqz 0 (List.length (nl_indices (ds_src d))))).
 Definition src_line (src : str) (line : Z) : str :=
   match raw_line_span src line with Some (a, b) => substr src a b | None => [] end.
-Definition ser_line_table (d : debug_symbols) : str :=
+Definition line_row (src : str) (line_col : Z) (p : Z * option Z) : str :=
+  pad_left 32 line_col (fmt_dec (fst p)) ++ TABLE_DIV ++ tword (snd p) ++ TABLE_DIV ++ escape (src_line src (fst p)).
+Definition line_table_lines (d : debug_symbols) : list str :=
   let t := line_table d in
   match t with
   | [] => []
   | _ =>
       let line_col := Z.max (len LINE) (count_digits (fst (last t (0, None)))) in
-      ln (pad_right 32 line_col LINE ++ TABLE_DIV ++ s2z "ADDR" ++ TABLE_DIV ++ s2z "SOURCE")
-      ++ flat_map (fun p => ln (pad_left 32 line_col (fmt_dec (fst p)) ++ TABLE_DIV
-                                ++ (match snd p with Some a => hex4 a | None => TFMT_UNINIT end)
-                                ++ TABLE_DIV ++ escape (src_line (ds_src d) (fst p)))) t
+      (pad_right 32 line_col LINE ++ TABLE_DIV ++ s2z "ADDR" ++ TABLE_DIV ++ s2z "SOURCE")
+      :: map (line_row (ds_src d) line_col) t
   end.
 
-Definition ser_tsym (st : symtab) : str :=
-  ln (s2z ".SYMBOL")
+Definition sym_lines (st : symtab) : list str :=
+  [s2z ".SYMBOL"]
   ++ (match st_labels st with
       | [] => []
-      | _ => ln (s2z "ADDR | EXT | LABEL") ++ flat_map sym_row (sort_by sym_lt (st_labels st))
+      | _ => s2z "ADDR | EXT | LABEL" :: map sym_row (sort_by sym_lt (st_labels st))
       end)
-  ++ ln []
-  ++ ln (s2z ".LINKER_INFO")
+  ++ [[]]
+  ++ [s2z ".LINKER_INFO"]
   ++ (match st_rel st with
       | [] => []
-      | _ => ln (s2z "ADDR | LABEL") ++ flat_map rel_row (sort_by rel_lt (st_rel st))
+      | _ => s2z "ADDR | LABEL" :: map rel_row (sort_by rel_lt (st_rel st))
       end)
-  ++ ln []
-  ++ ln (s2z ".DEBUG") ++ ln (s2z "# DEBUG SYMBOLS FOR LC3TOOLS") ++ ln []
-  ++ ser_label_table (st_labels st)
-  ++ ln DIVIDER
+  ++ [[]]
+  ++ [s2z ".DEBUG"; s2z "# DEBUG SYMBOLS FOR LC3TOOLS"; []]
+  ++ label_table_lines (st_labels st)
+  ++ [DIVIDER]
   ++ (match st_debug st with
-      | Some d => ser_line_table d ++ ln DIVIDER
+      | Some d => line_table_lines d ++ [DIVIDER]
       | None => []
       end).
 
-Definition ser_text (o : objfile) : str :=
-  ln TFMT_MAGIC ++ ln [] ++ ln (s2z ".TEXT") ++ flat_map ser_tblock (o_blocks o) ++ ln []
-  ++ (match o_sym o with Some st => ser_tsym st | None => [] end).
+Definition text_lines (o : objfile) : list str :=
+  [TFMT_MAGIC; []; s2z ".TEXT"] ++ flat_map tblock_lines (o_blocks o) ++ [[]]
+  ++ (match o_sym o with Some st => sym_lines st | None => [] end).
+
+Definition ser_text (o : objfile) : str := flat_map ln (text_lines o).
 
 (* ---------- deserialize ---------- *)
 Record tstate := mkT {
@@ -467,9 +474,11 @@ Fixpoint run_groups (gs : list (str * list str)) (st : tstate) : rd tstate :=
   | (h, r) :: rest => rd_bind (group h r st) (run_groups rest)
   end.
 
-Definition deser_text (s : str) : rd objfile :=
-  let ls := filter (fun l => negb (starts_with 35 l) && negb (match trim l with [] => true | _ => false end))
-                   (lines (trim s)) in
+(* `.filter(|l| !l.starts_with('#')).filter(|&l| !l.trim().is_empty())` *)
+Definition keep_line (l : str) : bool :=
+  negb (starts_with 35 l) && negb (match trim l with [] => true | _ => false end).
+
+Definition deser_lines (ls : list str) : rd objfile :=
   match ls with
   | first :: rest =>
       if negb (str_eqb first TFMT_MAGIC) then RNone
@@ -486,6 +495,8 @@ Definition deser_text (s : str) : rd objfile :=
         end
   | [] => RNone
   end.
+
+Definition deser_text (s : str) : rd objfile := deser_lines (filter keep_line (lines (trim s))).
 
 (* ---------- TextInv: what the text round trip needs on top of ObjInv (also checked on every
    assembled / linked object by the harness) ---------- *)
